@@ -66,7 +66,7 @@ func checkC06(p *Program, r *Result) {
 	r.rule("C06.a", "data CRC read after the last data write and right before DataEnd", 1)
 	r.rule("C06.b", "CRC reset between DataEnd and the summary", 1)
 	r.rule("C06.c", "summary CRC read between the footer prefix write and the CRC write", 1)
-	r.rule("C06.d", "attachment CRC scope", 4)
+	r.rule("C06.d", "attachment CRC scope", 3)
 	r.rule("C06.e", "CRC wrappers hash exactly the bytes they forward", 2)
 	r.rule("C06.f", "single owner of the destination writer", 1)
 	r.rule("C06.g", "IEEE polynomial everywhere", 3)
@@ -333,7 +333,18 @@ func checkAttachmentCRC(p *Program, r *Result, isSink func(ssa.CallInstruction) 
 	// and the through-crc write starts at byte 9
 	for _, ci := range deepFilter(func(ci ssa.CallInstruction) bool { return calleeRepoName(ci) == "mcap.crcWriter.Write" }) {
 		args := ci.Common().Args
-		if sl, ok := args[len(args)-1].(*ssa.Slice); ok {
+		data := args[len(args)-1]
+		// the covered bytes may be handed to a helper as a parameter: look at what its single caller passes
+		if prm, ok := data.(*ssa.Parameter); ok {
+			if sites := p.staticCallers(prm.Parent()); len(sites) == 1 {
+				for i, q := range prm.Parent().Params {
+					if q == prm && i < len(sites[0].Common().Args) {
+						data = sites[0].Common().Args[i]
+					}
+				}
+			}
+		}
+		if sl, ok := data.(*ssa.Slice); ok {
 			if c, ok := sl.Low.(*ssa.Const); ok && c.Value != nil && c.Int64() == 9 {
 				r.held("C06.d", fname, "CRC starts after the prefix", p.pos(ci.Pos()), "fields from byte 9 go through the accumulator")
 			} else {
